@@ -166,3 +166,11 @@ MUTANTS += [
     ("idiom-take_while-loop-unguarded", ["C05"], [("@patch", "refactors/parser-leaves-r2-R2/patch.diff", None),
                                                  (P, "while taken < input.len() && pred(input[taken]) {", "while pred(input[taken]) {")]),
 ]
+
+
+# refactorings that are known to raise alarms although behaviour is unchanged (DESIGN.md 6.3): the state of `process`
+# restructured beyond what the buffer-discipline rules can follow. Listed so that the run shows them for what they are.
+LIMITATIONS = {
+    "r-process-r3-R2": "the two offsets of process become fields of a private struct updated through &mut self methods (pathsum has no place semantics for struct-valued locals)",
+    "r-process-r3-R3": "the terminator loop of process moves into a function of its own that returns the new offset (roles of the offsets span two frames)",
+}
